@@ -166,3 +166,62 @@ pub mod empty {
     harness! { fn c11b_break_before_guarded_mut() unwind(4) { break_before_guarded_archetype(true) } }
     harness! { fn c11b_break_before_guarded_shared() unwind(4) { break_before_guarded_archetype(false) } }
 }
+
+pub mod leaked {
+    use crate::model::*;
+    use crate::sym;
+    use crate::worlds::w3::*;
+    use crate::{cover, harness};
+    use gecs::prelude::*;
+
+    /// The statically checked (`&mut self`) API never consults the cells: after a guard was leaked
+    /// with `mem::forget` (no reference alive, only the flag left set) iter / iter_mut / the slice
+    /// accessors / view / ecs_iter! / ecs_find! still work and see every entity with its own values.
+    pub fn static_api_after_leak(col: u8) {
+        let m: Model<2> = Model::any_inv();
+        sym::assume(m.len >= 1);
+        let mut world = load::<Tri, 2>(&m);
+        match col {
+            0 => std::mem::forget(world.arch_tri.borrow_slice_mut::<P>()),
+            1 => std::mem::forget(world.arch_tri.borrow_slice::<Pad>()),
+            _ => {
+                let (key, ver) = m.handle_raw(Tri::ID, 0);
+                let h: Entity<ArchTri> = EntityAny::from_raw((key, ver)).ok().unwrap().try_into().ok().unwrap();
+                let b = world.arch_tri.borrow(h).unwrap();
+                std::mem::forget(b.component_mut::<Pad>());
+            }
+        }
+        let (key, ver) = m.handle_raw(Tri::ID, 0);
+        let h: Entity<ArchTri> = EntityAny::from_raw((key, ver)).ok().unwrap().try_into().ok().unwrap();
+        let a = &mut world.arch_tri;
+        assert!(a.iter().count() == m.len, "Archetype::iter() refused or shortened after a leaked guard");
+        assert!(a.iter_mut().count() == m.len, "Archetype::iter_mut() refused or shortened after a leaked guard");
+        assert!(a.get_slice::<P>().len() == m.len && a.get_slice_mut::<Pad>().len() == m.len, "slice accessors after a leaked guard");
+        assert!(a.get_slice::<P>()[0].0 == m.val[0] && a.get_slice::<Pad>()[0].1 == m.aux[0]);
+        {
+            let s = a.get_all_slices_mut();
+            assert!(s.p.len() == m.len && s.pad.len() == m.len);
+        }
+        {
+            let v = a.view(h);
+            assert!(v.is_some(), "view refused after a leaked guard");
+            let v = v.unwrap();
+            assert!(v.p.0 == m.val[0] && v.pad.1 == m.aux[0]);
+        }
+        let mut n = 0;
+        ecs_iter!(world, |_e: &Entity<ArchTri>, p: &mut P, pad: &Pad| {
+            n += 1;
+            p.0 = p.0;
+            let _ = pad.1;
+        });
+        assert!(n == m.len, "ecs_iter! refused or shortened after a leaked guard");
+        let r = ecs_find!(world, h, |p: &mut P, pad: &mut Pad| (p.0, pad.1));
+        assert!(r == Some((m.val[0], m.aux[0])), "ecs_find! refused after a leaked guard");
+        cover!(m.len == 2, "two entities");
+        std::mem::forget(world);
+    }
+
+    harness! { fn c11b_static_api_after_leak_mut_p() unwind(5) { static_api_after_leak(0) } }
+    harness! { fn c11b_static_api_after_leak_shared_pad() unwind(5) { static_api_after_leak(1) } }
+    harness! { fn c11b_static_api_after_leak_component_mut() unwind(5) { static_api_after_leak(2) } }
+}
